@@ -52,8 +52,8 @@ def consumers(v):
     if -(1 << 31) <= val < (1 << 31):
         ex["e"] = [u64(val)]
         ex["c"] = ["1"]
-    elif t in ("long", "ulong"):
-        ex["c"] = ["1"]            # D06: case labels are kept in an int
+    elif t in ("long", "ulong") and val % 5 == 0:
+        ex["c"] = ["1"]            # D06: case labels are kept in an int (a thinned sample: each costs a gcc run)
     if 1 <= val <= 2000:
         ex["a"] = [str(val)]
     if 1 <= val <= 32:
@@ -169,8 +169,8 @@ def judge(ctx, tree, vecs, tag):
     if bad:
         # the rotating destination type depends on the case number: keep it
         wd = ctx.tmp(tag + "-gcc")
-        for (n, v, k, exp, got) in bad:
-            g = cexpr.run_cases(cexpr.GCC, [(n, (v, k))], mkprog, wd, "g%d%s" % (n, k))[n]
+        gres = vt.pmap(lambda b: cexpr.run_cases(cexpr.GCC, [(b[0], (b[1], b[2]))], mkprog, wd, "g%d%s" % (b[0], b[2]))[b[0]], bad)
+        for (n, v, k, exp, got), g in zip(bad, gres):
             if isinstance(g, tuple) or g.get(k) != exp:
                 ctx.oracle_disagreements += 1
                 continue
@@ -198,12 +198,9 @@ def judge_divzero(ctx, tree, vecs, tag):
             k = 0
         f = "%s/z%d.c" % (wd, n)
         open(f, "w").write("\n\n" + DZ[k] % const_text(v["e"]))
-        try:
-            p = subprocess.run([tree + "/chibicc", "-cc1", "-cc1-input", f, "-cc1-output", f + ".s", f],
-                               capture_output=True, text=True, timeout=30)
-            rc, err = p.returncode, p.stderr
-        except subprocess.TimeoutExpired:
-            rc, err = "timeout", ""
+        p = subprocess.run([tree + "/chibicc", "-cc1", "-cc1-input", f, "-cc1-output", f + ".s", f],
+                           capture_output=True, text=True, timeout=120)      # a timeout is infrastructure (exit 2)
+        rc, err = p.returncode, p.stderr
         return n, v, k, rc, err, f
     for n, v, k, rc, err, f in vt.pmap(one, vecs):
         ctx.note_case("divzero|%s|%s" % (DZN[k], const_text(v["e"])))
@@ -232,7 +229,7 @@ def run(ctx):
     if ctx.tlc("expr", "ExprMC", c2, workers=4, timeout=600, count=False).ok:
         raise Infra("sensitivity control failed: TLC accepts the folder with the uint32_t cast arm")
     ctx.phase("mc done")
-    vec = cexpr.generate(ctx, FAMS, STRIDE if q else 2, 3 if q else 4, workers=12 if q else 16, minimum=1000)
+    vec = cexpr.generate(ctx, FAMS, STRIDE if q else 2, 24 if q else 4, workers=12 if q else 16, minimum=1000)
     ctx.phase("gen done (%d vectors)" % len(vec))
     dz = [v for v in vec if v["dz"]]
     vec = [v for v in vec if not v["dz"]]
